@@ -64,6 +64,7 @@ func checkImplicit(c ImplicitCase, o *vf.Obs) error {
 	o.ClassIf(len(leaves) > 1, "composite")
 	o.ClassIf(c.Callers >= 4, "callers_ge_4")
 	o.ClassIf(c.ViaConfig, "via_config")
+	classIStepBelow(c.Tree, o)
 	if total >= 2 {
 		o.NonTrivial()
 	}
